@@ -67,6 +67,16 @@ def gen(tier, rng):
             if n >= 1 and k % 2 == 0:
                 b[0] = (rng.choice([4, 6, 4, 6, 0, 5, 15]) << 4) | (b[0] & 0x0f)
             ops.append("packet " + hx(bytes(b)))
+    # long inputs: lengths around multiples of 256 and 65536 (length arithmetic in narrow integer types), typical MTUs, jumbo frames
+    longs = [255, 256, 257, 270, 275, 276, 295, 296, 300, 511, 512, 513, 532, 552, 1023, 1024, 1044, 1280, 1500, 1514, 4096, 9000, 65535, 65536, 65556, 65576]
+    for n in longs:
+        for k in range(12 if thorough else 4):
+            b = bytearray(rng.bytes(min(n, 64)) + bytes(max(0, n - 64)))
+            if k % 2 == 0:
+                b[12], b[13] = 0x81, 0x00
+            ops.append("frame " + hx(bytes(b)))
+            b[0] = (rng.choice([4, 6, 4, 6, 5]) << 4) | (b[0] & 0x0f)
+            ops.append("packet " + hx(bytes(b)))
     # ethertypes
     ets = range(65536) if thorough else sorted(set([0x8100, 0x80ff, 0x8101, 0x0081, 0x8000, 0x0000, 0xffff, 0x88a8, 0x0800]
                                               + [rng.below(65536) for _ in range(1500)]))
